@@ -3,14 +3,20 @@
 cd /verif
 out=${1:-/tmp/regress_seeds.log}
 : > $out
+# runs against a changed tree must not leave their evidence behind
+rm -rf /verif/.build/evidence.regress; cp -r /verif/evidence /verif/.build/evidence.regress
+# optional second argument: only seeds whose id matches this regex
+sel=${2:-.}
 for d in seeded/*/; do
   id=$(basename $d)
+  echo "$id" | grep -Eq "$sel" || continue
   prop=$(python3 -c "import json;print(json.load(open('$d/meta.json'))['property'][:3])")
   git -C /repo apply /verif/$d/patch.diff || { echo "$id patch-does-not-apply" >> $out; continue; }
   r=$(./check $prop --tier quick 2>&1 | grep -E "^VIOLATION|^OK" | head -2 | cut -c1-300 | tr '\n' ' ')
   git -C /repo checkout -- .
   echo "$id -> $r" >> $out
 done
-(cd /verif/harness && CARGO_NET_OFFLINE=true cargo build --release --offline --bin tracegen 2>&1 | tail -1)
+(cd /verif/harness && CARGO_NET_OFFLINE=true cargo build --offline --bin tracegen 2>&1 | tail -1)
+rm -rf /verif/evidence; mv /verif/.build/evidence.regress /verif/evidence
 git -C /repo status --short | grep -v '^??' | head -3
 echo done >> $out
